@@ -96,7 +96,7 @@ fn main() {
         .stack_size(2 << 30)
         .spawn(move || match sub.as_str() {
             "both" => both(&rest),
-            "unicode" => parsers::extra(&rest),
+            "unicode" | "boot" => parsers::extra(&rest),
             _ => parsers::extra(&rest),
         })
         .unwrap()
